@@ -10,6 +10,7 @@ package main
 import (
 	"bytes"
 	"fmt"
+	"go/token"
 	"os"
 	"sort"
 
@@ -35,6 +36,25 @@ func (p *Prog) Inlined(f *ssa.Function, keep func(callee *ssa.Function) bool) *s
 func (p *Prog) inlinedDepth(f *ssa.Function, depth int, keep func(callee *ssa.Function) bool) *ssa.Function {
 	if f == nil || len(f.Blocks) == 0 {
 		return f
+	}
+	// branch folding in views may use: the load of an error variable that is only assigned errors.New/fmt.Errorf by its
+	// initialiser is not nil
+	ssa.KnownNonNilHook = func(v ssa.Value) bool {
+		u, ok := v.(*ssa.UnOp)
+		if !ok || u.Op != token.MUL {
+			return false
+		}
+		g, ok := u.X.(*ssa.Global)
+		if !ok {
+			return false
+		}
+		if c, ok := p.ConstGlobal(g).(*ssa.Call); ok {
+			switch calleeName(&c.Call) {
+			case "errors.New", "fmt.Errorf":
+				return true
+			}
+		}
+		return false
 	}
 	if keep == nil {
 		if m := inlineCache[p]; m != nil {
